@@ -160,3 +160,5 @@ def generate(repo, files, report):
     targets_prob.generate(repo, files, report)
     import targets_cli
     targets_cli.generate(repo, files, report)
+    import targets_io
+    targets_io.generate(repo, files, report)
